@@ -372,7 +372,9 @@ func (g *ctlGen) gen() *event {
 		ev.mtype = int(ts[r.intn(len(ts))])
 	case "junk":
 		ev.peer, ev.kind = g.peer(), "junk"
-		switch r.intn(4) {
+		switch r.intn(5) {
+		case 4:
+			ev.raw = nil // zero-length datagram
 		case 0:
 			ev.raw = r.bytes(1 + r.intn(12))
 		case 1:
@@ -383,7 +385,7 @@ func (g *ctlGen) gen() *event {
 			ev.raw = []byte{0x20, 0x01, 0xff, 0xff, 0, 0, 1, 0} // length field lies
 		}
 		// the abstract event `junk` means: ignored by the loop before any table is consulted
-		if cl := pfcp.VerifClassify(ev.raw); cl != "undecodable" && cl != "neither" {
+		if cl := pfcp.VerifClassify(ev.raw); cl != "undecodable" && cl != "neither" && cl != "stop" {
 			ev.raw = []byte{0x20, 0x63, 0x00, 0x04, 0, 0, 1, 0}
 		}
 	case "tmotx":
